@@ -315,6 +315,15 @@ func (f *Frame) finishRecover() {
 			heap[k] = a
 			continue
 		}
+		if k == "$bytes" {
+			// the counter at the recovery point is the counter at whichever panic point was taken
+			pb := s.freshConst("bytes", "Int")
+			for i, ph := range f.panicHeap {
+				s.fact(implies(f.panicEdge[i], eq(pb, s.hget(ph, "$bytes", "Int"))))
+			}
+			heap[k] = pb
+			continue
+		}
 		// a key no panic path has touched since the defer statement keeps its value (e.g. the cells of captured parameters)
 		if f.deferHeap != nil {
 			base := s.hget(f.deferHeap, k, srt)
@@ -439,7 +448,8 @@ func (f *Frame) appendOp(x *ssa.Call, c *ssa.CallCommon, pos string) Val {
 		}
 	}
 	// amortised allocation charge
-	f.chargeAllocCond(not(or(inplace, eq(n, "0"))), ncap, elem, pos)
+	// amortised: Go grows backing arrays geometrically, so n appended elements cost O(n) bytes in total (assumption)
+	f.chargeAllocCond("true", app("*", "3", n), elem, pos)
 	var ls []leaf
 	leavesOf(elem, "", &ls)
 	for _, l := range ls {
